@@ -272,8 +272,25 @@ impl Drop for Workdir {
     }
 }
 
+/// spell a directory path the way the run asks for (relative paths are relative to the scratch root = cwd)
+fn spell(p: &Path, style: u8) -> String {
+    let abs = p.to_string_lossy().into_owned();
+    let rel = || {
+        // <root>/w<N>/<name...>  →  path relative to <root>/w<N>
+        let comps: Vec<String> = p.components().map(|c| c.as_os_str().to_string_lossy().into_owned()).collect();
+        let i = comps.iter().rposition(|c| c.starts_with('w') && c[1..].chars().all(|d| d.is_ascii_digit()) && c.len() > 1).unwrap_or(0);
+        comps[i + 1..].join("/")
+    };
+    match style {
+        1 => rel(),
+        2 => format!("{}/", abs),
+        3 => format!("./{}/", rel()),
+        _ => abs,
+    }
+}
+
 pub fn argv_of(scn: &Scenario, r: &RunSpec, data: &Path, dump: &Path) -> Vec<String> {
-    let mut a: Vec<String> = vec!["-c".into(), scn.coin.clone(), "-d".into(), data.to_string_lossy().into_owned()];
+    let mut a: Vec<String> = vec!["-c".into(), scn.coin.clone(), "-d".into(), spell(data, r.path_style)];
     if r.verify {
         a.push("--verify".into());
     }
@@ -290,25 +307,27 @@ pub fn argv_of(scn: &Scenario, r: &RunSpec, data: &Path, dump: &Path) -> Vec<Str
     }
     a.push(r.callback.clone());
     if matches!(r.callback.as_str(), "csvdump" | "unspentcsvdump" | "balances") {
-        a.push(dump.to_string_lossy().into_owned());
+        a.push(spell(dump, r.path_style));
     }
     a
 }
 
 /// Executes all runs of the scenario in `wd`. Errors are harness errors.
 pub fn exec_scenario(ctx: &ExecCtx, wd: &Workdir, scn: &Scenario, built: &Built) -> Result<Vec<RunOutcome>, String> {
-    let dump = wd.root.join("dump");
+    let dump_default = wd.root.join("dump");
     let immut = scn.params.get("check_immutable").and_then(|v| v.as_bool()).unwrap_or(false);
     let mut outcomes = Vec::with_capacity(scn.runs.len());
     let mut infos: BTreeMap<usize, WorldInfo> = BTreeMap::new();
     for (ri, r) in scn.runs.iter().enumerate() {
         let data = wd.root.join(format!("data{}", r.layout));
+        // normally a sibling of the data directory; optionally a sub-directory of it
+        let dump = if r.dump_in_data { data.join("csv-out") } else { dump_default.clone() };
         if r.fresh_data || !infos.contains_key(&r.layout) {
             let layout = scn.layouts.get(r.layout).ok_or("run refers to missing layout")?;
             let info = build_world(scn, built, layout, &r.disk_faults, &data)?;
             infos.insert(r.layout, info);
         }
-        if r.fresh_dump || ri == 0 {
+        if r.fresh_dump || ri == 0 || !dump.exists() {
             let _ = fs::remove_dir_all(&dump);
             fs::create_dir_all(&dump).map_err(|e| e.to_string())?;
             for p in &scn.dump_pre {
@@ -355,6 +374,7 @@ pub fn exec_scenario(ctx: &ExecCtx, wd: &Workdir, scn: &Scenario, built: &Built)
             .env("RBP_SIM_TRACE", &trace_path)
             .env("RUST_BACKTRACE", "0")
             .env("HOME", &wd.root)
+            .current_dir(&wd.root)
             .stdin(Stdio::null())
             .stdout(Stdio::from(so))
             .stderr(Stdio::from(se))
